@@ -91,12 +91,23 @@ fn generic_arg_json(tmap: &BTreeMap<u64, usize>, a: &GenericArg) -> Value {
 /// they index TLA+ tuples directly; statement targets are 1-based statement numbers.
 /// `builder` is Some when the real compiler accepted the program.
 pub fn export_program(program: &Program, builder: Option<&RunnableBuilder>) -> Value {
+    export_program_ex(program, builder, None)
+}
+
+pub type CoreRegistry = cairo_lang_sierra::program_registry::ProgramRegistry<
+    cairo_lang_sierra::extensions::core::CoreType,
+    cairo_lang_sierra::extensions::core::CoreLibfunc,
+>;
+
+/// Like `export_program`; when the compiler rejected the program (`builder` = None) the declared
+/// signatures can still be exported from a registry that validated.
+pub fn export_program_ex(program: &Program, builder: Option<&RunnableBuilder>, reg: Option<&CoreRegistry>) -> Value {
     let tmap: BTreeMap<u64, usize> =
         program.type_declarations.iter().enumerate().map(|(i, t)| (t.id.id, i)).collect();
     let lmap: BTreeMap<u64, usize> =
         program.libfunc_declarations.iter().enumerate().map(|(i, l)| (l.id.id, i)).collect();
     let fmap: BTreeMap<u64, usize> = program.funcs.iter().enumerate().map(|(i, f)| (f.id.id, i)).collect();
-    let registry = builder.map(|b| b.registry());
+    let registry = builder.map(|b| b.registry()).or(reg);
 
     let types: Vec<Value> = program
         .type_declarations
